@@ -8,17 +8,17 @@ open GIV GIV.Txtar
 
 /-- the shape of doCmdCmp's update branch -/
 structure CmpFacts : Prop where
-  flagAndNotEnv : Gen.TsRun.updateCondFlagAndNotEnv = true
-  afterNegAndEq : Gen.TsRun.updateAfterNegAndEq = true
-  keyIsAbsName2 : Gen.TsRun.updateKeyIsAbsName2 = true
-  storesText1 : Gen.TsRun.updateStoresText1 = true
+  flagAndNotEnv : Gen.TsRunUpdate.updateCondFlagAndNotEnv = true
+  afterNegAndEq : Gen.TsRunUpdate.updateAfterNegAndEq = true
+  keyIsAbsName2 : Gen.TsRunUpdate.updateKeyIsAbsName2 = true
+  storesText1 : Gen.TsRunUpdate.updateStoresText1 = true
 
 /-- the shape of applyScriptUpdates -/
 structure ApplyFacts : Prop where
-  noopWhenEmpty : Gen.TsRun.applyNoopWhenEmpty = true
-  quotesWhenNeeded : Gen.TsRun.applyQuotesWhenNeeded = true
-  fatalCaught : Gen.TsRun.updateFatalCaught = true
-  writesFormat : Gen.TsRun.applyWritesFormat = true
+  noopWhenEmpty : Gen.TsRunUpdate.applyNoopWhenEmpty = true
+  quotesWhenNeeded : Gen.TsRunUpdate.applyQuotesWhenNeeded = true
+  fatalCaught : Gen.TsRunUpdate.updateFatalCaught = true
+  writesFormat : Gen.TsRunUpdate.applyWritesFormat = true
 
 theorem doCmp_eq (F : CmpFacts) (i : CmpIn) :
     doCmp i =
